@@ -548,6 +548,19 @@ impl Schedule {
         // remove segment for provider
         let (shrinked_tour_provider, path) = tour_provider.remove(segment)?;
 
+        // consecutive nodes of a dummy tour need not be able to reach each other (maintenance
+        // nodes are stripped from dummy tours), such a sequence cannot be inserted as one piece
+        if let Some((a, b)) = path
+            .iter()
+            .tuple_windows()
+            .find(|(a, b)| !self.network.can_reach(*a, *b))
+        {
+            return Err(format!(
+                "Cannot override_reassign segment {} from vehicle {}. {} cannot reach {}.",
+                segment, provider, a, b
+            ));
+        }
+
         let moved_nodes: Vec<NodeIdx> = path.iter().collect();
 
         // insert path into tour
@@ -1381,9 +1394,19 @@ impl Schedule {
 
         while let Some(path) = remaining_path {
             let sub_segment_start = path.first();
+            // consecutive nodes of a dummy tour need not be able to reach each other (maintenance
+            // nodes are stripped from dummy tours), so a sub segment ends at the first such gap
+            let connected_length = 1 + path
+                .iter()
+                .tuple_windows()
+                .take_while(|(a, b)| self.network.can_reach(*a, *b))
+                .count();
             let (end_pos, sub_segment_end) =
                 match new_tour_receiver.latest_not_reaching_node(sub_segment_start) {
-                    None => (path.length() - 1, path.last()),
+                    None => (
+                        connected_length - 1,
+                        path.iter().nth(connected_length - 1).unwrap(),
+                    ),
                     Some(pos) => {
                         // the segment can only be inserted before the blocker
                         let blocker = new_tour_receiver.nth_node(pos).unwrap();
@@ -1394,6 +1417,7 @@ impl Schedule {
                         // If empty this segment will fail, so return path.first()
                         path.iter()
                             .enumerate()
+                            .take(connected_length)
                             .map_while(|(i, n)| {
                                 if self.network.node(n).end_time()
                                     > self.network.node(blocker).start_time()
